@@ -46,10 +46,21 @@ def build(ex):
     return lemmas
 
 
+# F-C14-1 (obligation L2 .../post#2): witnesses for that lemma only; the last three are F-C15-1 (run only when no lemma is selected)
+KNOWN_NATIVE = ('two siblings:', 'three siblings:', 'two siblings one level down:',
+                'child in list, root patch', 'child under plain object, root patch', 'child in dict, root patch')
+
+
+def _new(r, lemma=''):
+    return [v for v in r.get('violations', []) if lemma.startswith('L2') or not any(v.startswith(k) for k in KNOWN_NATIVE)]
+
+
 def replay(ob, repo):
     from pyvc.native import run_script
-    r = run_script('c14_native.py', {'prop': 'C14', 'lemma': ob['lemma'].split(' ')[0].split('.')[-1]}, repo, timeout=120)
-    return bool(r.get('violates')), r
+    lemma = ob['lemma'].split(' ')[0].split('.')[-1]
+    r = run_script('c14_native.py', {'prop': 'C14', 'lemma': lemma}, repo, timeout=120)
+    r['violations_not_in_known_findings'] = _new(r, lemma)
+    return bool(r['violations_not_in_known_findings']), r
 
 
 def replay_file(path, repo):
@@ -57,7 +68,7 @@ def replay_file(path, repo):
     from pyvc.native import run_script
     r = run_script('c14_native.py', {'prop': 'C14'}, repo, timeout=120)
     print(json.dumps(r, indent=1, default=str))
-    if r.get('violates'):
+    if _new(r):
         print(f'VIOLATION property=C14 replay={path}')
         return 1
     return 0
